@@ -16,8 +16,12 @@ import Driver.Flow
 import Driver.CHelpers
 import Driver.Amp
 import Driver.Frame
+import Driver.KeyUpdate
+import Driver.StreamTable
 
 structure World where
+  tab : Drv.TabW := {}
+  ku : Drv.KuW := {}
   amp : Drv.AmpW := {}
   chelpers : Drv.CW := {}
   flow : Drv.FlowW := {}
@@ -94,6 +98,12 @@ def step (w : World) (line : String) : World × String :=
       let (s, o) := Drv.stepAmp w.amp toks
       ({ w with amp := s }, o)
     else if t.startsWith "frame." then (w, Drv.stepFrame toks)
+    else if t.startsWith "ku." then
+      let (s, o) := Drv.stepKu w.ku toks
+      ({ w with ku := s }, o)
+    else if t.startsWith "tab." then
+      let (s, o) := Drv.stepTab w.tab toks
+      ({ w with tab := s }, o)
     else (w, "bad-op")
 
 partial def loop (hin hout : IO.FS.Stream) (w : World) : IO Unit := do
